@@ -24,6 +24,7 @@ RULE = (
     "notification-free steps), Streamable HTTP with SSE bodies, legacy SSE (202 + events) - in two passes: A raw requests with str/int ids, comparing the read-stream transcript with the "
     "script-derived one; B the typed send_* helpers, comparing each helper's normalised outcome (validated result dump / exception class + code); non-trivial = a notification before a response, "
     "non-ASCII text, an error reply or an int id; distinct = distinct (conversation, pass)"
+    "; added in rounds 6-7 of the seeded changes: per-step spelling of JSON and events (compact, no space, untyped, CRLF, sorted, escaped); legacy server answering in the POST reply; 1e400 / escaped lone surrogates"
 )
 ASSUMPTIONS = [
     "each carrier uses the plain encoding its parser is built for (exotic encodings are C11/C12's subject)",
